@@ -10,12 +10,19 @@ def run(chk):
                 "large-magnitude inputs for the stabilised functions; composite helpers (mean, batch::mean, batch::normalize, selu, dropout 0/1/"
                 "disabled, softmax family) against the documented formulas on both APIs. Non-trivial = accepted call; distinct = distinct lines.")
     libs = _compose.load(_compose.KERNEL_LIBS, chk)
-    _compose.obligations(chk, "C02", libs)
+    _compose.obligations(chk, "C02", libs, own_drivers=["funcs"])
     for lib in libs:
         _compose.run_lib(lib, chk, "C02")
     for f in _compose.load(["_funcs"], chk):
         if hasattr(f, "run_composites"):
             f.run_composites(chk)
+        if hasattr(f, "pown_program"):
+            # values through both APIs (lazy Node path / eager Tensor path) and the function table: attribute values at the
+            # integer-width boundaries (pown), the result batch of a binary function with one shared operand (dense cross entropy)
+            n = 3 if chk.tier == "quick" else 40
+            progs = [f.pown_program(chk.rng) for _ in range(n)] + [f.sce_program(chk.rng, B) for B in (2, 3) for _ in range(n)]
+            found, dis = f.run_programs(chk, progs)
+            f.report_found(chk, found, dis, prop="C02", keyprefix="funcs")
     _compose.finish(chk)
     chk.trusted += ["'within a few float32 ulps' is measured by the correspondence run, not proved: theorems are over exact fields (why the stabilised forms cannot overflow, and that they equal the definitions over the reals)",
                     "loop kernels are hand-modelled (Model/KernelsMove.lean, Model/KernelsArith.lean) and tied to both backends by the correspondence run; elementwise formulas are translated from the sources (translate/elementwise.py)"]
